@@ -416,7 +416,7 @@ def run(rep, tier, replay):
     else:
         with cf.ThreadPoolExecutor(max_workers=2) as ex:
             fb = ex.submit(vlib.cargo_build, "c12")
-            nsim, ncover = (300, 24) if tier == "quick" else (4000, 200)
+            nsim, ncover = (300, 24) if tier == "quick" else (2000, 150)
             if FAST:
                 nsim, ncover = 40, 4
             fm = ex.submit(run_models, tier, 4 if tier == "quick" else 6, (nsim, 400, vlib.seed()))
